@@ -293,6 +293,9 @@ func tail(s string, n int) string {
 	return strings.Join(lines, "\n")
 }
 
+// outDirs: evidence and replay directories of the current run.
+var outDirs = [2]string{}
+
 // DriverMain runs a whole check and returns the process exit code.
 func DriverMain(prop, tier string, seed int64, self, raceBin string) int {
 	start := time.Now()
@@ -303,13 +306,20 @@ func DriverMain(prop, tier string, seed int64, self, raceBin string) int {
 	}
 	n := m.Cases(tier)
 	work := filepath.Join(VerifDir, "work", prop+"-"+tier)
+	evDir, rpDir := filepath.Join(VerifDir, "evidence"), filepath.Join(VerifDir, "replay")
+	if tag := os.Getenv("VERIF_WORK_TAG"); tag != "" {
+		// alternative repository under test (mutation testing): keep its outputs apart from the registered evidence
+		work = filepath.Join(VerifDir, "work", "alt-"+tag, prop+"-"+tier)
+		evDir, rpDir = filepath.Join(work, "evidence"), filepath.Join(work, "replay")
+	}
+	outDirs = [2]string{evDir, rpDir}
 	os.RemoveAll(work)
 	if err := os.MkdirAll(work, 0o755); err != nil {
 		fmt.Println(err)
 		return 2
 	}
-	os.MkdirAll(filepath.Join(VerifDir, "evidence"), 0o755)
-	os.MkdirAll(filepath.Join(VerifDir, "replay"), 0o755)
+	os.MkdirAll(evDir, 0o755)
+	os.MkdirAll(rpDir, 0o755)
 
 	shards := runtime.NumCPU()
 	if shards > 16 {
@@ -507,7 +517,7 @@ func finish(m *Monitor, mg *merged, prop, tier string, seed int64, n int, start 
 			continue
 		}
 		seenKey[v.Key] = true
-		path := filepath.Join(VerifDir, "replay", fmt.Sprintf("%s-%016x.json", prop, Mix(HashStr(v.Key), uint64(v.Idx))))
+		path := filepath.Join(outDirs[1], fmt.Sprintf("%s-%016x.json", prop, Mix(HashStr(v.Key), uint64(v.Idx))))
 		rb, _ := json.MarshalIndent(map[string]any{"property": prop, "tier": tier, "seed": seed, "idx": v.Idx,
 			"key": v.Key, "msg": v.Msg, "case": v.Case, "count": mg.violByKey[v.Key]}, "", " ")
 		os.WriteFile(path, rb, 0o644)
@@ -515,7 +525,7 @@ func finish(m *Monitor, mg *merged, prop, tier string, seed int64, n int, start 
 	}
 	for k := range unknown {
 		if !seenKey[k] {
-			path := filepath.Join(VerifDir, "replay", fmt.Sprintf("%s-%016x.json", prop, HashStr(k)))
+			path := filepath.Join(outDirs[1], fmt.Sprintf("%s-%016x.json", prop, HashStr(k)))
 			rb, _ := json.MarshalIndent(map[string]any{"property": prop, "tier": tier, "seed": seed, "idx": -1,
 				"key": k, "msg": mg.firstByKey[k], "count": mg.violByKey[k]}, "", " ")
 			os.WriteFile(path, rb, 0o644)
@@ -567,7 +577,7 @@ func finish(m *Monitor, mg *merged, prop, tier string, seed int64, n int, start 
 		"wall_s": time.Since(start).Seconds(), "violations": nviol,
 	}
 	eb, _ := json.MarshalIndent(ev, "", " ")
-	evPath := filepath.Join(VerifDir, "evidence", prop+".json")
+	evPath := filepath.Join(outDirs[0], prop+".json")
 	os.WriteFile(evPath+".tmp", eb, 0o644)
 	os.Rename(evPath+".tmp", evPath)
 
